@@ -57,7 +57,7 @@ SMALL = ("empty", "deny", "allow", "deny+allow")
 
 def make_h(tier):
     quick = tier == "quick"
-    paths = PATHS if not quick else PATHS[:10] + PATHS[-1:]
+    paths = PATHS if not quick else PATHS[:9] + PATHS[-1:]
     pats_small = PATTERNS[:4] if not quick else PATTERNS[:3]
 
     def h(ctx):
